@@ -93,6 +93,10 @@ func copyBlock(v reflect.Value, block Block) error {
 			return fmt.Errorf("found field %q but is unexported", f.Name)
 		}
 
+		if x == nil {
+			return fmt.Errorf("nil value for the mapped field: struct.%s, block.%s", f.Name, name)
+		}
+
 		namei := f.Index[0]
 		vx := reflect.ValueOf(x)
 
